@@ -1,4 +1,5 @@
 """C03 — Every emitted document is a closed, structurally valid OpenAPI 3 description (ref closure, status domain, path parameters)."""
+import json
 import re
 from facts import hir_walk, callee_def, callee_of, variant_of, pat_variants
 from facts import operands_of_rvalue
@@ -280,6 +281,14 @@ def r2_status_dom(c, facts):
                 m = re.match(r'Int\(Pu128\((\d+)\)', arm['body'].get('v', '')) if arm['body']['k'] == 'lit' else None
                 if vs and m:
                     v2n[vs[0]] = int(m.group(1))
+        elif e['k'] == 'match' and 'HttpStatus' in e['scrut']['ty']:
+            # the flat form: `HttpStatus::Range(HttpStatusRange::Info) => StatusCode::Range(1)`
+            for arm in e['arms']:
+                vs = [x for x in re.findall(r'HttpStatusRange::(\w+)', json.dumps(arm['pat']))]
+                vs = sorted(set(vs) - {'{constructor#0}'})
+                lits = [x for x, _ in hir_walk(arm['body']) if x['k'] == 'lit' and re.match(r'Int\(Pu128\((\d+)\)', x.get('v', ''))]
+                if len(vs) == 1 and len(lits) == 1 and arm['guard'] is None:
+                    v2n[vs[0]] = int(re.match(r'Int\(Pu128\((\d+)\)', lits[0]['v']).group(1))
     ph = c.anchor(R, 'oal_syntax::lexer::parse_http_status')
     d2v = {}
     for e, anc in hir_walk(ph.hir['body']):
